@@ -97,8 +97,10 @@ PartitionOK(D, O, s, T, toks) ==
 TokenFieldsOK(D, s, tk) ==
    /\ tk.bb = BytePos(s, tk.b) /\ tk.be = BytePos(s, tk.e)
    /\ tk.surf = Slice(s, tk.b, tk.e)
+   /\ tk.id >= 0 /\ EntryExists(D, tk.lt, tk.id)
    /\ tk.f = EntryFeature(D, tk.lt, tk.id)
    /\ tk.c = EntryCost(D, tk.lt, tk.id)
+   /\ tk.l = EntryL(D, tk.lt, tk.id) /\ tk.r = EntryR(D, tk.lt, tk.id)
 
 (* ------------------------------------------------------------------
    Precondition of C12 on an alphabet: space characters belong to SPACE alone, no other
